@@ -212,6 +212,9 @@ def _tags(p):
             "nfft:" + ("None" if n is None else ("odd" if n % 2 else "even")), "rows:" + ("capped" if len(x) - p["P"] > 100 else "full")]
 
 
+# kinds whose parameters describe the content of x: no derived degenerate records
+NO_DEGEN = {"tones"}
+
 KINDS = {
     "psd": {"impl": impl_psd, "model": model_psd, "rtol": 1e-7, "atol": 1e-300, "key": _key, "tags": _tags},
     "fb": {"impl": impl_fb, "model": model_fb, "post": post_fb, "rtol": 1e-9, "atol": 1e-300, "key": _key, "tags": _tags},
